@@ -54,9 +54,9 @@ CHECKS = {
    text="Bounded symbolic execution of the real loaders on three token lists (27/24/26 tokens: all simple-value kinds, "
         "sequence, set, units, blocks with begin/end names, based/signed/temporal/real values) whose inter-token gaps "
         "in a sliding window are SYMBOLIC separators: runs of 0 (only where the grammar makes white space optional), "
-        "1 or 2 characters each any of the six white-space characters, a comment /* c */ with a symbolic inner "
-        "character with or without symbolic white space around it, and for the ISIS and default grammars white space "
-        "+ '#' + symbolic character + newline. Assertion: the load succeeds and equals the load of the single-blank "
+        "1 or 2 characters each any of the six white-space characters, a comment /* c */ or /* cd */ with FREE symbolic "
+        "inner characters (only the terminator '*/' itself excluded) with or without symbolic white space around it, and "
+        "for the ISIS and default grammars white space + '#' + one or two free symbolic characters + newline. Assertion: the load succeeds and equals the load of the single-blank "
         "layout. Window of 1-3 gaps (quick) / 2-4 (thorough) at every position. One known finding (D37) listed and "
         "its class assumed away. Outside: separators longer than 2, nested comment-like text, corpus files.",
    ref='5 (C04)', technique='symbolic execution (symx) of the loaders with symbolic inter-token separators vs the single-blank layout; z3'),
@@ -81,7 +81,9 @@ CHECKS = {
         "'omni'), five loader configurations: the outcome is a module, LexerError or ParseError. (ii) Token level: the "
         "C05 stream harness with k <= 5 / 6 tokens, and 3 / 4 tokens after six fixed prefixes (inside a set, a sequence, "
         "a set in a set, a sequence in a set, after units, inside a group): no other exception type escapes, and the number of generator "
-        "operations on a path stays within 40*(k+2) (a progress measure; termination itself is not provable by "
+        "operations on a path stays within 40*(k+2); (iii) 23 value shapes (times with zones and fractions, leap "
+        "seconds, day-of-year dates, based integers, reals) with every digit and sign symbolic, as a value, a sequence "
+        "element and a parameter name. Progress measure: 40*(k+2) (a progress measure; termination itself is not provable by "
         "bounded execution - a path exceeding the measure or the per-path wall clock is reported). Outside: longer "
         "inputs, recursion-depth exhaustion on deep nesting, mutation of real label files (a fuzzing technique).",
    ref='5 (C06)', technique='symbolic execution (symx) of lexer+parsers on fully symbolic short texts and symbolic token streams; z3'),
@@ -91,7 +93,8 @@ CHECKS = {
         "characters, an unquoted value of 1-2 / 1-3 symbolic printable characters (so it may spell a number, a "
         "keyword, a delimiter ...), leap-second times with symbolic digits (with fraction, with a date in a "
         "symbolic year), block keywords in every letter case, missing values in seven positions with symbolic "
-        "layout, units on a sequence / set, based integers and reals in non-canonical spellings; four encoders. "
+        "layout, units on a sequence / set, based integers and reals in non-canonical spellings, 14 value shapes with "
+        "symbolic digits (zoned and fractional times, day-of-year dates, reals whose repr uses an exponent); four encoders. "
         "Assertions: the second load equals the spec-side normalisation of the first (C01/C02 oracle for the "
         "encoder's dialect), its errors list is empty, and the two dumps are identical strings; encoder refusal is "
         "allowed. The D35 class (see C05) is assumed away. Outside: corpus files, longer values.",
@@ -119,8 +122,10 @@ CHECKS = {
         "(PC(t) and not PC(t') unsat for fresh t') shows no decision depended on the tail - which carries over to "
         "every longer tail because the lexer reads left to right and is not resumed after END; for the default "
         "loader (whose document-level dash substitution legitimately reads the tail) equality and the pull count. "
-        "(b) decode_by_char / get_text_from / load on stub binary and text streams whose bytes after the label are "
-        "symbolic (0-255): exactly the longest all-ASCII prefix, same module as the str entry. (c) dump to stub text "
+        "(b) decode_by_char / get_text_from / load on stub binary and text streams (the text stub decodes a chunk at a "
+        "time like io.TextIOWrapper and has .buffer) whose bytes after the label are symbolic, also positioned after a "
+        "header of symbolic bytes, and loads() of a bytes object with a symbolic tail: exactly the longest all-ASCII "
+        "prefix, same module as the str entry. (c) dump to stub text "
         "/ binary streams writes exactly dumps(...) / its UTF-8 encoding once and returns what write returns, "
         "symbolic string leaf. NOT reachable and not claimed: real paths, PathLike, file: URLs, OS buffering (C/OS "
         "boundary) - left to tests/test_init.py.",
@@ -150,8 +155,8 @@ CHECKS = {
         "snapshot unchanged. Outside: longer containers, deeper nesting.",
    ref='5 (C11)', technique='symbolic execution (symx) of pvl.collections copy paths; bounded shapes, z3 decides every branch'),
  'C12': dict(
-   text="Bounded symbolic execution of the real encoders on the C01 module shapes (plus a shape whose PARAMETER NAME "
-        "is the symbolic string, for ODL/PDS3) with one symbolic string leaf of length 0-2 (quick) / 0-3 and the C01 "
+   text="Bounded symbolic execution of the real encoders on the C01 module shapes (plus shapes whose PARAMETER NAME "
+        "is, or contains after '^' / inside NS..EL, the symbolic string, for ODL/PDS3) with one symbolic string leaf of length 0-2 (quick) / 0-3 and the C01 "
         "configurations incl. symbolic widths ([30,100] and [1,14]); the oracle is an independent line-level reader of the symbolic "
         "output text written from the specifications (no pvl code): character set per dialect, CR-LF discipline, "
         "delimiters, preferred begin/end keywords, block matching with the name iff aggregation_end, indentation "
@@ -167,7 +172,9 @@ CHECKS = {
         "symbolic string leaf (length 0-1 quick / 0-2), four encoders, several configurations: both texts identical, "
         "structural snapshots (classes, keys, values, order at every level) before / between / after equal, except "
         "PVLGroup -> PVLObject with identical content at the same position for PDS3; a refusal must not have "
-        "changed the argument either. Outside: modules beyond the listed shapes.",
+        "changed the argument either. Interleaved: encoder A, another dialect's encoder B, A again (same and fresh "
+        "instance) on a module whose strings the solver picks from 28 words the dialects treat differently: the three A "
+        "texts are identical. Outside: modules beyond the listed shapes.",
    ref='5 (C13)', technique='symbolic execution (symx) of the encoders with before/after snapshots; z3; bounded'),
  'C14': dict(
    text="Bounded symbolic execution of the real decode_datetime/encode_time code with ALL field values symbolic. "
